@@ -11,7 +11,7 @@
 //!       (/repo 81b9c5b4) are followed as far as the lock allows (regression); seeded random
 //!       schedules with the WF monitor at quiescence.  The scheduler's `choose` mirrors the list
 //!       lock (`LockMirror`) so that it does not grant a thread that would run into a held stripe.
-use graph_engine::{Direction, GraphEngine, GraphError, PropertyValue};
+use graph_engine::{Direction, EdgeInput, GraphEngine, GraphError, NodeInput, Pagination, PropertyValue};
 use nverif::sched::{run_threads, Step};
 use nverif::*;
 use serde_json::{json, Value};
@@ -29,6 +29,26 @@ enum Op {
     DNode(u64),
     UNode { n: u64, l: Option<u64>, v: u64 },
     UEdge { e: u64, v: u64 },
+    ALabel { n: u64, l: u64 },
+    RLabel { n: u64, l: u64 },
+    /// batch_create_nodes: (label, v) per item
+    BCN(Vec<(u64, u64)>),
+    /// batch_create_edges: (from, to, directed, type, v) per item
+    BCE(Vec<(u64, u64, bool, u64, u64)>),
+    BDE(Vec<u64>),
+    BDN(Vec<u64>),
+    /// batch_update_nodes: (node, label, v) per item
+    BUN(Vec<(u64, Option<u64>, u64)>),
+    /// drop the engine, `GraphEngine::with_store` over the same store (sequential scripts only)
+    Reopen,
+}
+
+fn items<T>(v: &[T], f: impl Fn(&T) -> String) -> String {
+    if v.is_empty() {
+        "-".to_string()
+    } else {
+        v.iter().map(f).collect::<Vec<_>>().join("/")
+    }
 }
 
 impl Op {
@@ -40,6 +60,14 @@ impl Op {
             Op::DNode(_) => "delete_node",
             Op::UNode { .. } => "update_node",
             Op::UEdge { .. } => "update_edge",
+            Op::ALabel { .. } => "add_label",
+            Op::RLabel { .. } => "remove_label",
+            Op::BCN(_) => "batch_create_nodes",
+            Op::BCE(_) => "batch_create_edges",
+            Op::BDE(_) => "batch_delete_edges",
+            Op::BDN(_) => "batch_delete_nodes",
+            Op::BUN(_) => "batch_update_nodes",
+            Op::Reopen => "reopen",
         }
     }
     /// token of the `run` line (`:` separated); `hint` = edge order of a delete_node
@@ -54,6 +82,14 @@ impl Op {
             }
             Op::UNode { n, l, v } => format!("unode:{n}:{}:{v}", l.map_or("-".to_string(), |x| x.to_string())),
             Op::UEdge { e, v } => format!("uedge:{e}:{v}"),
+            Op::ALabel { n, l } => format!("alabel:{n}:{l}"),
+            Op::RLabel { n, l } => format!("rlabel:{n}:{l}"),
+            Op::BCN(v) => format!("bcn:{}", items(v, |(l, x)| format!("{l}.{x}"))),
+            Op::BCE(v) => format!("bce:{}", items(v, |(a, b, d, ty, x)| format!("{a}.{b}.{}.{ty}.{x}", u8::from(*d)))),
+            Op::BDE(v) => format!("bde:{}", items(v, |e| e.to_string())),
+            Op::BDN(v) => format!("bdn:{}", items(v, |n| n.to_string())),
+            Op::BUN(v) => format!("bun:{}", items(v, |(n, l, x)| format!("{n}.{}.{x}", l.map_or("-".to_string(), |y| y.to_string())))),
+            Op::Reopen => "reopen".to_string(),
         }
     }
     /// sequential protocol line
@@ -75,8 +111,34 @@ fn show_err(e: &GraphError) -> String {
         GraphError::StorageError(_) => "err storage".into(),
         GraphError::PartialDeletionError { .. } => "err partial".into(),
         GraphError::CorruptedEdge { edge_id, .. } => format!("err edge_not_found {edge_id}"),
+        GraphError::BatchValidationError { index, cause } => match cause.as_ref() {
+            GraphError::NodeNotFound(n) => format!("err batch_invalid {index} node_not_found {n}"),
+            other => format!("err batch_invalid {index} other {other}"),
+        },
         other => format!("err other {other}"),
     }
+}
+
+fn show_batch_del(r: &graph_engine::BatchDeleteResult) -> String {
+    let failed = if r.failed.is_empty() {
+        "-".to_string()
+    } else {
+        r.failed
+            .iter()
+            .map(|f| {
+                let c = if f.cause.contains("not found") || f.cause.contains("orrupt") {
+                    "not_found"
+                } else if f.cause.starts_with("Storage") {
+                    "storage"
+                } else {
+                    "partial"
+                };
+                format!("{}:{}:{c}", f.index, f.id.map_or("?".to_string(), |x| x.to_string()))
+            })
+            .collect::<Vec<_>>()
+            .join(",")
+    };
+    format!("ok deleted {} failed {failed}", show_ids(&r.deleted_ids))
 }
 
 fn exec(g: &GraphEngine, op: &Op) -> String {
@@ -95,7 +157,31 @@ fn exec(g: &GraphEngine, op: &Op) -> String {
             .update_node(*n, l.map(|x| vec![format!("L{x}")]), props(*v))
             .map_or_else(|e| show_err(&e), |()| "ok".into()),
         Op::UEdge { e, v } => g.update_edge(*e, props(*v)).map_or_else(|e| show_err(&e), |()| "ok".into()),
+        Op::ALabel { n, l } => g.add_label(*n, &format!("L{l}")).map_or_else(|e| show_err(&e), |()| "ok".into()),
+        Op::RLabel { n, l } => g.remove_label(*n, &format!("L{l}")).map_or_else(|e| show_err(&e), |()| "ok".into()),
+        Op::BCN(v) => match g.batch_create_nodes(v.iter().map(|(l, x)| NodeInput::new(vec![format!("L{l}")], props(*x))).collect()) {
+            Ok(r) => format!("ok ids {}", show_ids(&r.created_ids)),
+            Err(e) => show_err(&e),
+        },
+        Op::BCE(v) => match g.batch_create_edges(v.iter().map(|(a, b, d, ty, x)| EdgeInput::new(*a, *b, format!("T{ty}"), props(*x), *d)).collect()) {
+            Ok(r) => format!("ok ids {}", show_ids(&r.created_ids)),
+            Err(e) => show_err(&e),
+        },
+        Op::BDE(v) => g.batch_delete_edges(v.clone()).map_or_else(|e| show_err(&e), |r| show_batch_del(&r)),
+        Op::BDN(v) => g.batch_delete_nodes(v.clone()).map_or_else(|e| show_err(&e), |r| show_batch_del(&r)),
+        Op::BUN(v) => match g.batch_update_nodes(v.iter().map(|(n, l, x)| (*n, l.map(|y| vec![format!("L{y}")]), props(*x))).collect()) {
+            Ok(c) => format!("ok count {c}"),
+            Err(e) => show_err(&e),
+        },
+        Op::Reopen => "ok".into(),
     }
+}
+
+/// `GraphEngine::with_store` over the store of `g` (the store handle is shared, `g` is dropped)
+fn reopened(g: GraphEngine) -> GraphEngine {
+    let store = g.store().clone();
+    drop(g);
+    GraphEngine::with_store(store)
 }
 
 fn new_engine() -> GraphEngine {
@@ -153,7 +239,8 @@ fn image_of(g: &GraphEngine) -> Image {
             [n] => {
                 if let Ok(n) = n.parse::<u64>() {
                     let label = match t.get("_labels") {
-                        Some(TensorValue::Pointers(ls)) if ls.len() == 1 => ls[0].trim_start_matches('L').to_string(),
+                        Some(TensorValue::Pointers(ls)) if ls.is_empty() => "-".to_string(),
+                        Some(TensorValue::Pointers(ls)) => ls.iter().map(|l| l.trim_start_matches('L').to_string()).collect::<Vec<_>>().join("."),
                         _ => "?".into(),
                     };
                     let v = int_field(&t, "v").map_or("?".into(), |x| x.to_string());
@@ -304,6 +391,35 @@ impl Image {
         }
         Some(s.into_iter().collect())
     }
+    /// `edges_of(n, dir)` as the set of existing edges implies: the edges incident to `n` in that
+    /// direction (an undirected edge is outgoing and incoming at both ends), ascending by id
+    fn spec_edges_of(&self, n: u64, dir: &str) -> Option<Vec<u64>> {
+        if !self.nodes.contains_key(&n) {
+            return None;
+        }
+        let outgoing = dir == "out" || dir == "both";
+        let incoming = dir == "in" || dir == "both";
+        Some(
+            self.edges
+                .iter()
+                .filter(|(_, r)| r.ok && ((outgoing && (r.src == n || (!r.directed && r.dst == n))) || (incoming && (r.dst == n || (!r.directed && r.src == n)))))
+                .map(|(e, _)| *e)
+                .collect(),
+        )
+    }
+    fn spec_degree_by_type(&self, n: u64, ty: u64) -> Option<(usize, usize)> {
+        if !self.nodes.contains_key(&n) {
+            return None;
+        }
+        let t = ty.to_string();
+        let o = self.edges.values().filter(|r| r.ty == t && (r.src == n || (!r.directed && r.dst == n))).count();
+        let i = self.edges.values().filter(|r| r.ty == t && (r.dst == n || (!r.directed && r.src == n))).count();
+        Some((o, i))
+    }
+    fn show_edge(&self, e: u64) -> String {
+        let r = &self.edges[&e];
+        format!("{e}({}>{},{},{},{})", r.src, r.dst, u8::from(r.directed), r.ty, r.v)
+    }
     fn spec_degree(&self, n: u64) -> Option<(usize, usize)> {
         if !self.nodes.contains_key(&n) {
             return None;
@@ -348,6 +464,75 @@ fn q_trav(g: &GraphEngine, n: u64, dir: &str, depth: usize, ty: Option<u64>) -> 
     }
 }
 
+fn show_edge(e: &graph_engine::Edge) -> String {
+    let v = match e.properties.get("v") {
+        Some(PropertyValue::Int(i)) => i.to_string(),
+        _ => "?".into(),
+    };
+    format!("{}({}>{},{},{},{v})", e.id, e.from, e.to, u8::from(e.directed), e.edge_type.trim_start_matches('T'))
+}
+fn show_edges(es: &[graph_engine::Edge]) -> String {
+    if es.is_empty() {
+        "-".into()
+    } else {
+        es.iter().map(show_edge).collect::<Vec<_>>().join(" ")
+    }
+}
+fn q_eof(g: &GraphEngine, n: u64, dir: &str) -> (String, Vec<u64>) {
+    match g.edges_of(n, dir_of(dir)) {
+        Ok(es) => (format!("ok {}", show_edges(&es)), es.iter().map(|e| e.id).collect()),
+        Err(_) => ("err node_not_found".into(), Vec::new()),
+    }
+}
+fn page(skip: usize, limit: Option<usize>) -> Pagination {
+    Pagination { skip, limit, count_total: true }
+}
+fn q_eofp(g: &GraphEngine, n: u64, dir: &str, skip: usize, limit: Option<usize>) -> (String, Vec<u64>) {
+    match g.edges_of_paginated(n, dir_of(dir), page(skip, limit)) {
+        Ok(p) => (
+            format!("ok {} total={} more={}", show_edges(&p.items), p.total_count.map_or("?".to_string(), |t| t.to_string()), u8::from(p.has_more)),
+            p.items.iter().map(|e| e.id).collect(),
+        ),
+        Err(_) => ("err node_not_found".into(), Vec::new()),
+    }
+}
+fn q_neighp(g: &GraphEngine, n: u64, dir: &str, ty: Option<u64>, skip: usize, limit: Option<usize>) -> (String, Vec<u64>) {
+    let t = ty.map(|t| format!("T{t}"));
+    match g.neighbors_paginated(n, t.as_deref(), dir_of(dir), None, page(skip, limit)) {
+        Ok(p) => {
+            let ids: Vec<u64> = p.items.iter().map(|x| x.id).collect();
+            (format!("ok {} total={} more={}", show_ids(&ids), p.total_count.map_or("?".to_string(), |t| t.to_string()), u8::from(p.has_more)), ids)
+        }
+        Err(_) => ("err node_not_found".into(), Vec::new()),
+    }
+}
+fn q_degty(g: &GraphEngine, n: u64, ty: u64) -> String {
+    let t = format!("T{ty}");
+    match (g.out_degree_by_type(n, &t), g.in_degree_by_type(n, &t), g.degree_by_type(n, &t)) {
+        (Ok(o), Ok(i), Ok(d)) => format!("ok {o} {i} {d}"),
+        _ => "err node_not_found".into(),
+    }
+}
+fn q_gedge(g: &GraphEngine, e: u64) -> String {
+    match g.get_edge(e) {
+        Ok(x) => format!("ok {}", show_edge(&x)),
+        Err(_) => format!("err edge_not_found {e}"),
+    }
+}
+fn q_gnode(g: &GraphEngine, n: u64) -> String {
+    match g.get_node(n) {
+        Ok(x) => {
+            let ls = if x.labels.is_empty() { "-".to_string() } else { x.labels.iter().map(|l| l.trim_start_matches('L').to_string()).collect::<Vec<_>>().join(".") };
+            let v = match x.properties.get("v") {
+                Some(PropertyValue::Int(i)) => i.to_string(),
+                _ => "?".into(),
+            };
+            format!("ok {ls},{v}")
+        }
+        Err(_) => format!("err node_not_found {n}"),
+    }
+}
+
 // ------------------------------------------------------------------ sequential scripts
 
 struct Gen {
@@ -379,7 +564,36 @@ impl Gen {
         }
     }
     fn op(&self, r: &mut Rng) -> Op {
-        let w = r.below(100);
+        let w = r.below(122);
+        if w >= 100 && self.nodes.len() >= 2 {
+            return match w {
+                100..=102 => Op::ALabel { n: self.node(r), l: r.below(3) },
+                103..=104 => Op::RLabel { n: self.node(r), l: r.below(3) },
+                105..=107 => Op::BCN((0..r.below(5)).map(|_| (r.below(3), r.below(5))).collect()),
+                108..=112 => {
+                    // endpoints mostly live (a dead one fails the whole batch before any write)
+                    let k = r.below(6);
+                    let safe = r.chance(3, 4);
+                    Op::BCE(
+                        (0..k)
+                            .map(|_| {
+                                let a = if safe { *r.pick(&self.nodes) } else { self.node(r) };
+                                let b = if r.chance(1, 8) { a } else if safe { *r.pick(&self.nodes) } else { self.node(r) };
+                                (a, b, r.chance(1, 2), r.below(2), r.below(5))
+                            })
+                            .collect(),
+                    )
+                }
+                113..=115 => Op::BDE((0..r.below(5)).map(|_| self.edge(r)).collect()),
+                116..=117 => Op::BDN((0..r.below(4)).map(|_| self.node(r)).collect()),
+                118..=119 => {
+                    let safe = r.chance(2, 3);
+                    Op::BUN((0..r.below(4)).map(|_| (if safe { *r.pick(&self.nodes) } else { self.node(r) }, if r.chance(1, 2) { Some(r.below(3)) } else { None }, r.below(9))).collect())
+                }
+                _ => Op::Reopen,
+            };
+        }
+        let w = w % 100;
         if self.nodes.len() < 2 || w < 18 {
             Op::CNode { l: r.below(3), v: r.below(5) }
         } else if w < 58 {
@@ -463,10 +677,13 @@ struct SeqFail {
 
 /// Run one sequential script on a fresh engine and a reset model; stop at the first failure.
 fn run_script(ops: &[Op], queries: bool, m: &mut Model, rep: Option<&mut Report>, qr: &mut Rng) -> Option<SeqFail> {
-    let g = new_engine();
+    let mut g = new_engine();
     m.ask("reset");
     let mut rep = rep;
     for (i, op) in ops.iter().enumerate() {
+        if *op == Op::Reopen {
+            g = reopened(g);
+        }
         let imp = match guarded(std::panic::AssertUnwindSafe(|| exec(&g, op))) {
             Ok(s) => s,
             Err(p) => return Some(SeqFail { at: i, what: format!("panic: {p}"), violation: Some((format!("graph_engine/{}_panics", op.name()), p)) }),
@@ -500,6 +717,36 @@ fn run_script(ops: &[Op], queries: bool, m: &mut Model, rep: Option<&mut Report>
             return Some(SeqFail { at: i, what: format!("unexpected keys {:?}", im.odd_keys), violation: None });
         }
         if queries {
+            // scans: all_edges / all_nodes / counts vs model AND vs the store image
+            let all = g.all_edges();
+            let a = show_edges(&all);
+            let b = m.ask("alledges");
+            if a != b {
+                return Some(SeqFail { at: i, what: format!("all_edges: impl={a} model={b}"), violation: None });
+            }
+            let stored: Vec<u64> = im.edges.iter().filter(|(_, r)| r.ok).map(|(e, _)| *e).collect();
+            if all.iter().map(|e| e.id).collect::<Vec<_>>() != stored || g.edge_count() != im.edges.len() {
+                let w = format!("all_edges() = {a} (edge_count {}), the store holds edges {stored:?}", g.edge_count());
+                return Some(SeqFail { at: i, what: w.clone(), violation: Some(("graph_engine.all_edges/not_the_stored_edges".into(), w)) });
+            }
+            let mut nids = g.get_all_node_ids().unwrap_or_default();
+            nids.sort_unstable();
+            let a = show_ids(&nids);
+            let b = m.ask("allnodes");
+            let a2 = show_ids(&g.all_nodes().iter().map(|x| x.id).collect::<Vec<_>>());
+            if a != b || a2 != b {
+                return Some(SeqFail { at: i, what: format!("all node ids: get_all_node_ids={a} all_nodes={a2} model={b}"), violation: None });
+            }
+            let stored: Vec<u64> = im.nodes.keys().copied().collect();
+            if nids != stored {
+                let w = format!("get_all_node_ids() = {a}, the store holds nodes {stored:?}");
+                return Some(SeqFail { at: i, what: w.clone(), violation: Some(("graph_engine.all_nodes/not_the_stored_nodes".into(), w)) });
+            }
+            let a = format!("{} {}", g.node_count(), g.edge_count());
+            let b = m.ask("counts");
+            if a != b {
+                return Some(SeqFail { at: i, what: format!("counts: impl={a} model={b}"), violation: None });
+            }
             // queries: answers vs model AND vs the edge-set oracle
             let nq = 1 + qr.below(2);
             for _ in 0..nq {
@@ -538,6 +785,82 @@ fn run_script(ops: &[Op], queries: bool, m: &mut Model, rep: Option<&mut Report>
                 let b = m.ask(&format!("trav {n} {dir} {depth} {tys}"));
                 if a != b {
                     return Some(SeqFail { at: i, what: format!("trav {n} {dir} {depth} {tys}: impl={a} model={b}"), violation: None });
+                }
+                // ---- edges_of / edges_of_paginated / neighbors_paginated / degree by type
+                let (a, ids) = q_eof(&g, n, dir);
+                let b = m.ask(&format!("eof {n} {dir}"));
+                if a != b {
+                    return Some(SeqFail { at: i, what: format!("eof {n} {dir}: impl={a} model={b}"), violation: None });
+                }
+                let spec = im.spec_edges_of(n, dir);
+                let spec_txt = spec.as_ref().map_or("err node_not_found".to_string(), |v| if v.is_empty() { "ok -".to_string() } else { format!("ok {}", v.iter().map(|e| im.show_edge(*e)).collect::<Vec<_>>().join(" ")) });
+                if a != spec_txt {
+                    let w = format!("edges_of({n},{dir}) = {a}, edge set implies {spec_txt}");
+                    return Some(SeqFail { at: i, what: w.clone(), violation: Some(("graph_engine.edges_of/not_what_edge_set_implies".into(), w)) });
+                }
+                let skip = qr.below(3) as usize;
+                let limit = if qr.chance(1, 4) { None } else { Some(qr.below(4) as usize) };
+                let lims = limit.map_or("-".to_string(), |l| l.to_string());
+                let (a, pids) = q_eofp(&g, n, dir, skip, limit);
+                let b = m.ask(&format!("eofp {n} {dir} {skip} {lims}"));
+                if a != b {
+                    return Some(SeqFail { at: i, what: format!("eofp {n} {dir} {skip} {lims}: impl={a} model={b}"), violation: None });
+                }
+                if spec.is_some() {
+                    let want: Vec<u64> = ids.iter().copied().skip(skip).take(limit.unwrap_or(usize::MAX)).collect();
+                    let more = limit.map_or(false, |l| ids.len() > skip + l);
+                    let tail = format!("total={} more={}", ids.len(), u8::from(more));
+                    if pids != want || !a.ends_with(&tail) {
+                        let w = format!("edges_of_paginated({n},{dir},skip={skip},limit={lims}) = {a}, edges_of has ids {ids:?}");
+                        return Some(SeqFail { at: i, what: w.clone(), violation: Some(("graph_engine.edges_of_paginated/not_a_page_of_edges_of".into(), w)) });
+                    }
+                }
+                let (a, pids) = q_neighp(&g, n, dir, ty, skip, limit);
+                let b = m.ask(&format!("neighp {n} {dir} {tys} {skip} {lims}"));
+                if a != b {
+                    return Some(SeqFail { at: i, what: format!("neighp {n} {dir} {tys} {skip} {lims}: impl={a} model={b}"), violation: None });
+                }
+                if let Some(all) = im.spec_neighbors(n, dir, ty) {
+                    let want: Vec<u64> = all.iter().copied().skip(skip).take(limit.unwrap_or(usize::MAX)).collect();
+                    let more = limit.map_or(false, |l| all.len() > skip + l);
+                    let tail = format!("total={} more={}", all.len(), u8::from(more));
+                    if pids != want || !a.ends_with(&tail) {
+                        let w = format!("neighbors_paginated({n},{dir},{tys},skip={skip},limit={lims}) = {a}, edge set implies neighbours {all:?}");
+                        return Some(SeqFail { at: i, what: w.clone(), violation: Some(("graph_engine.neighbors_paginated/not_a_page_of_neighbors".into(), w)) });
+                    }
+                }
+                let qty = qr.below(2);
+                let a = q_degty(&g, n, qty);
+                let b = m.ask(&format!("degty {n} {qty}"));
+                if a != b {
+                    return Some(SeqFail { at: i, what: format!("degty {n} {qty}: impl={a} model={b}"), violation: None });
+                }
+                let spec = im.spec_degree_by_type(n, qty).map_or("err node_not_found".to_string(), |(o, i)| format!("ok {o} {i} {}", o + i));
+                if a != spec {
+                    let w = format!("degree_by_type({n},T{qty}) = {a}, edge set implies {spec}");
+                    return Some(SeqFail { at: i, what: w.clone(), violation: Some(("graph_engine.degree_by_type/not_what_edge_set_implies".into(), w)) });
+                }
+                // ---- point reads
+                let e = if im.edges.is_empty() || qr.chance(1, 5) { qr.below(12) } else { *qr.pick(&im.edges.keys().copied().collect::<Vec<_>>()) };
+                let a = q_gedge(&g, e);
+                let b = m.ask(&format!("gedge {e}"));
+                if a != b {
+                    return Some(SeqFail { at: i, what: format!("gedge {e}: impl={a} model={b}"), violation: None });
+                }
+                let spec = if im.edges.get(&e).map_or(false, |r| r.ok) { format!("ok {}", im.show_edge(e)) } else { format!("err edge_not_found {e}") };
+                if a != spec {
+                    let w = format!("get_edge({e}) = {a}, stored record is {spec}");
+                    return Some(SeqFail { at: i, what: w.clone(), violation: Some(("graph_engine.get_edge/not_the_stored_record".into(), w)) });
+                }
+                let a = q_gnode(&g, n);
+                let b = m.ask(&format!("gnode {n}"));
+                if a != b {
+                    return Some(SeqFail { at: i, what: format!("gnode {n}: impl={a} model={b}"), violation: None });
+                }
+                let a = if g.node_exists(n) { "1" } else { "0" };
+                let b = m.ask(&format!("nex {n}"));
+                if a != b || (a == "1") != im.nodes.contains_key(&n) {
+                    return Some(SeqFail { at: i, what: format!("node_exists({n}): impl={a} model={b} stored={}", im.nodes.contains_key(&n)), violation: None });
                 }
                 if let Some(r) = rep.as_deref_mut() {
                     r.hit("seq.query");
@@ -730,6 +1053,9 @@ impl LockMirror {
             }
             Op::UNode { n, .. } => (None, vec![idx(*n)]),
             Op::UEdge { e, .. } => (None, vec![idx(*e)]),
+            Op::ALabel { n, .. } | Op::RLabel { n, .. } => (None, vec![idx(*n)]),
+            // batch operations and re-opening are not run under the scheduler
+            _ => (None, Vec::new()),
         }
     }
     /// for every parked thread: would a grant make it wait for a stripe held by another parked thread?
@@ -1127,7 +1453,7 @@ fn main() {
         let big = case % 40 == 7;
         let mut ops: Vec<Op> = Vec::new();
         {
-            let g = new_engine();
+            let mut g = new_engine();
             let mut gen = Gen::new();
             if big {
                 // a hub with >= 100 incident edges: delete_node takes the rayon "parallel" path
@@ -1136,31 +1462,55 @@ fn main() {
                 ops.push(Op::CNode { l: 0, v: 0 });
                 let total = 100 + r.below(30);
                 let nodes = if par { spokes } else { total };
-                for _ in 0..nodes {
-                    ops.push(Op::CNode { l: 1, v: 0 });
+                // the spokes and the edges one by one, or through the batch calls (>= 100 items:
+                // batch_create_nodes runs create_node_internal on the rayon pool)
+                let batch = r.chance(1, 3);
+                if batch {
+                    ops.push(Op::BCN((0..nodes).map(|_| (1, 0)).collect()));
+                    rep.hit(if nodes >= 100 { "seq.big_hub.batch_create_nodes_parallel_path" } else { "seq.big_hub.batch_create_nodes_sequential_path" });
+                } else {
+                    for _ in 0..nodes {
+                        ops.push(Op::CNode { l: 1, v: 0 });
+                    }
                 }
+                let mut es = Vec::new();
                 for k in 0..total {
                     let other = 2 + (k % nodes);
                     let (a, b) = if r.chance(1, 2) { (1, other) } else { (other, 1) };
-                    ops.push(Op::CEdge { a, b, d: r.chance(2, 3), ty: 0, v: 0 });
+                    es.push((a, b, r.chance(2, 3), 0u64, 0u64));
                 }
-                ops.push(Op::DNode(if r.chance(3, 4) { 1 } else { 2 }));
+                if batch {
+                    ops.push(Op::BCE(es));
+                } else {
+                    ops.extend(es.into_iter().map(|(a, b, d, ty, v)| Op::CEdge { a, b, d, ty, v }));
+                }
+                if r.chance(1, 4) {
+                    ops.push(Op::Reopen);
+                }
+                let victim = if r.chance(3, 4) { 1 } else { 2 };
+                ops.push(if r.chance(1, 4) { Op::BDN(vec![victim, 3]) } else { Op::DNode(victim) });
                 rep.hit(if par { "seq.big_hub.parallel_edges" } else { "seq.big_hub.distinct_neighbours" });
                 for op in &ops {
+                    if *op == Op::Reopen {
+                        g = reopened(g);
+                    }
                     exec(&g, op);
                 }
             }
             for _ in 0..(if big { 5 } else { len }) {
                 gen.note(&image_of(&g));
                 let op = gen.op(&mut r);
+                if op == Op::Reopen {
+                    g = reopened(g);
+                }
                 exec(&g, &op);
                 ops.push(op);
             }
         }
         let fail = run_script(&ops, !big, &mut m, Some(&mut rep), &mut qr);
         let txt = ops.iter().map(|o| o.line()).collect::<Vec<_>>().join(";");
-        let created = ops.iter().any(|o| matches!(o, Op::CEdge { .. }));
-        let deleted = ops.iter().any(|o| matches!(o, Op::DEdge(_) | Op::DNode(_)));
+        let created = ops.iter().any(|o| matches!(o, Op::CEdge { .. } | Op::BCE(_)));
+        let deleted = ops.iter().any(|o| matches!(o, Op::DEdge(_) | Op::DNode(_) | Op::BDE(_) | Op::BDN(_)));
         rep.case(if big { "seq.big_hub" } else { "seq" }, if created && deleted { Some(&txt) } else { None });
         if let Some(f) = fail {
             // shrink (deterministic re-execution on fresh engine + reset model)
@@ -1268,6 +1618,10 @@ fn main() {
         "seq.delete_edge.err_edge_not_found", "seq.delete_node.ok", "seq.delete_node.err_node_not_found",
         "seq.update_node.ok", "seq.update_node.err_node_not_found", "seq.update_edge.ok", "seq.update_edge.err_edge_not_found",
         "seq.big_hub.parallel_edges", "seq.big_hub.distinct_neighbours", "seq.query",
+        "seq.add_label.ok", "seq.remove_label.ok", "seq.batch_create_nodes.ok", "seq.batch_create_edges.ok",
+        "seq.batch_create_edges.err_batch_invalid", "seq.batch_delete_edges.ok", "seq.batch_delete_nodes.ok",
+        "seq.batch_update_nodes.ok", "seq.batch_update_nodes.err_batch_invalid", "seq.reopen.ok",
+        "seq.big_hub.batch_create_nodes_parallel_path",
         "conc.threads.2", "conc.threads.8",
     ]
     .iter()
@@ -1276,6 +1630,6 @@ fn main() {
     rep.note("add_edge_to_list / remove_edge_from_list run under edge_list_lock(key) (a stripe of index_locks chosen by a hash of the list key, /repo 81b9c5b4); the model has one lock per list key (acquire / release are silent steps, a thread at the acquire of a held lock is not runnable); two keys sharing a stripe only remove interleavings. The lock is invisible in the yield traces: the correspondence is that every real schedule is accepted by the locked model (a grant to a non-runnable model thread would show as a trace disagreement)");
     rep.note("the scheduler's choose mirrors the list lock (LockMirror) and does not grant a thread that would wait for a held stripe; steps where a thread nevertheless waited on a real lock (index stripes shared with list keys, wrong guesses) are counted in conc.steps_with_a_thread_blocked_on_a_real_lock");
     rep.note("delete_node's >=100-edge path runs on rayon pool threads that the deterministic scheduler does not control; it is exercised only by the sequential stream (real concurrency, not schedule-controlled); since the list lock every such script must be well-formed (class graph_engine.delete_node/parallel_path_lost_removal is a regression oracle)");
-    rep.note("not modelled: property/label index contents, constraints, batch operations, weak-memory effects inside one TensorStore call");
+    rep.note("not modelled: property/label index contents, constraints, weak-memory effects inside one TensorStore call; batch operations, add_label / remove_label and re-opening (GraphEngine::with_store over the same store) are exercised sequentially only");
     rep.write(&args.out);
 }
